@@ -41,8 +41,8 @@ def cfgs(tier):
     # A: chain a->b plus an independent c contending for one gpu
     tk = [task(1, 1, "a@G", [], [2], [strat(1, 2)], src=True), task(2, 1, "b@G", [1], [], [strat(1, 1)], sink=True),
           task(3, 2, "c@H", [], [], [strat(1, 2)], src=True, sink=True)]
-    gr = [{"g": 1, "name": [71], "tasks": [1, 2], "closed": False, "jg": "G", "cp": 3},
-          {"g": 2, "name": [72], "tasks": [3], "closed": False, "jg": "H", "cp": 2}]
+    gr = [{"g": 1, "name": [71], "tasks": [1, 2], "closed": False, "jg": "G", "cp": 3, "conc": 0, "ninv": 0},
+          {"g": 2, "name": [72], "tasks": [3], "closed": False, "jg": "H", "cp": 2, "conc": 0, "ninv": 0}]
     out.append(("chain_contention", dict(
         MCW={"pools": [[[I("gpu", "g1", 1)]]], "fl": flags(timeout=10)}, MCTasks=tk, MCGraphs=gr,
         MCInit=[dyn(0, 6), dyn(-1, 6), dyn(1, 5)], SchedRt=0, Frontier={"la": 0, "rtg": False, "retract": False}, Delays={0, 1}, MaxInvocations=3)))
@@ -54,7 +54,7 @@ def cfgs(tier):
     tkc = [task(1, 1, "a@G", [], [2, 3], [strat(1, 1)], cond=True, src=True),
            task(2, 1, "b@G", [1], [4], [strat(1, 1)]), task(3, 1, "c@G", [1], [4], [strat(1, 2)]),
            task(4, 1, "d@G", [2, 3], [], [strat(1, 1)], term=True, sink=True)]
-    grc = [{"g": 1, "name": [71], "tasks": [1, 2, 3, 4], "closed": False, "jg": "G", "cp": 4}]
+    grc = [{"g": 1, "name": [71], "tasks": [1, 2, 3, 4], "closed": False, "jg": "G", "cp": 4, "conc": 0, "ninv": 0}]
     out.append(("conditional", dict(
         MCW={"pools": [[[I("gpu", "g1", 1)]]], "fl": flags(timeout=12, drop_skipped=True)}, MCTasks=tkc, MCGraphs=grc,
         MCInit=[dyn(0, 8), dyn(-1, 8, 500000), dyn(-1, 8, 500000), dyn(-1, 8)], SchedRt=0, Frontier={"la": 0, "rtg": False, "retract": False},
@@ -64,7 +64,7 @@ def cfgs(tier):
         tkd = [task(1, 1, "a@G", [], [3], [strat(1, 2), strat(2, 1)], src=True),
                task(2, 1, "b@G", [], [3], [strat(1, 1)], src=True),
                task(3, 1, "c@G", [1, 2], [], [strat(2, 1)], sink=True)]
-        grd = [{"g": 1, "name": [71], "tasks": [1, 2, 3], "closed": False, "jg": "G", "cp": 3}]
+        grd = [{"g": 1, "name": [71], "tasks": [1, 2, 3], "closed": False, "jg": "G", "cp": 3, "conc": 0, "ninv": 0}]
         out.append(("two_pools", dict(
             MCW={"pools": [[[I("gpu", "g1", 1)]], [[I("gpu", "g2", 2)]]], "fl": flags(timeout=12, frequency=2, sched_rt=1)},
             MCTasks=tkd, MCGraphs=grd, MCInit=[dyn(0, 7), dyn(1, 7), dyn(-1, 7)], SchedRt=1, Frontier={"la": 0, "rtg": False, "retract": False},
@@ -73,7 +73,7 @@ def cfgs(tier):
             MCW={"pools": [[[I("gpu", "g1", 2)]]], "fl": flags(timeout=14)},
             MCTasks=[task(1, 1, "a@G", [], [2, 3], [strat(1, 1)], src=True), task(2, 1, "b@G", [1], [4], [strat(1, 2)]),
                      task(3, 1, "c@G", [1], [4], [strat(1, 1)]), task(4, 1, "d@G", [2, 3], [], [strat(1, 1)], sink=True)],
-            MCGraphs=[{"g": 1, "name": [71], "tasks": [1, 2, 3, 4], "closed": False, "jg": "G", "cp": 4}],
+            MCGraphs=[{"g": 1, "name": [71], "tasks": [1, 2, 3, 4], "closed": False, "jg": "G", "cp": 4, "conc": 0, "ninv": 0}],
             MCInit=[dyn(0, 9), dyn(-1, 9), dyn(-1, 9), dyn(-1, 9)], SchedRt=0, Frontier={"la": 6, "rtg": True, "retract": True}, Delays={0, 1},
             MaxInvocations=2)))
     return out
